@@ -31,10 +31,14 @@ SHAPES = {
 ROW_KINDS = ["BOOLEAN", "NULL", "INTEGER", "ENUMERATED", "OCTET STRING", "BIT STRING", "OBJECT IDENTIFIER", "RELATIVE-OID",
              "UTCTime", "GeneralizedTime", "IA5String", "VisibleString", "UTF8String", "BMPString", "UniversalString"]
 
+SAFE_PRIM = ["OCTET STRING", "BIT STRING", "BMPString", "UniversalString"]
+
 class IocGen:
-    def __init__(self, rng, max_depth=2):
+    def __init__(self, rng, max_depth=2, safe_rows=False):
         self.r = rng
         self.max_depth = max_depth
+        # safe_rows: only row types whose descriptor has size-led `specifics` (outside the F105 region)
+        self.safe_rows = safe_rows
 
     def gen_module(self, name, shape="clean", nrows=None):
         r = self.r
@@ -55,7 +59,10 @@ class IocGen:
         for i in range(nrows):
             g.hoisted = []
             # first rows: one primitive and one constructed, then random
-            if i == 0: t = g.prim()
+            if self.safe_rows:
+                t = g.gen_type(0) if i else {"k": r.choice(SAFE_PRIM), "size": g.size_cons()}
+                while t["k"] not in ("SEQUENCE", "CHOICE", "SEQUENCE OF", "SET OF") + tuple(SAFE_PRIM): g.hoisted = []; t = g.gen_type(0)
+            elif i == 0: t = g.prim()
             elif i == 1:
                 t = g.gen_type(0)
                 while t["k"] not in ("SEQUENCE", "CHOICE", "SEQUENCE OF", "SET OF", "SET"): g.hoisted = []; t = g.gen_type(0)
